@@ -19,7 +19,7 @@
 //!
 //! Events (judged by spec/trace/T_Ribbit.tla; nothing is decided here):
 //!   {"op":"new","fam":..,"cfg":{..},"db":[..],"accepted":bool,"why":"<error text>"}
-//!   {"op":"query","seq":n,..step..,"ms":t,"res":{"out":"rows","rows":[[{"n":name,"k":"str|hex|dec|empty","v":text[,"raw":text]},..],..]}
+//!   {"op":"query","seq":n,..step..,"ms":t[,"starved":{"retries":k,"lag_ms":l}],"res":{"out":"rows","rows":[[{"n":name,"k":"str|hex|dec|empty","v":text[,"raw":text]},..],..]}
 //!                                              |{"out":"err","err":text}|{"out":"panic","msg":..}|{"out":"timeout"}}
 //!   {"op":"open","seq":n,"c":c,"tr":..,"n":k,"res":{"connected":k}}
 //!   {"op":"send","seq":n,"c":c,"cls":..,"res":{"sent":k}}
@@ -42,12 +42,20 @@ use tokio::io::{AsyncReadExt, AsyncWriteExt};
 use tokio::net::TcpStream;
 use verif_harness::{arg, arg_u64, read_programs};
 
-/// a concurrent valid probe must be answered within this many seconds (generous: shared, loaded machine)
+/// Time is measured on the *server's* runtime: a ticker task there counts 100 ms ticks (missed ticks are not made
+/// up for).  A pause of the whole process or machine (observed: 170 s), or a starved server thread, stops that clock
+/// too, so that no deadline below can expire merely because nobody was running.
+const TICK: Duration = Duration::from_millis(100);
+/// a concurrent valid probe must be answered within 30 s of server time (generous: shared, loaded machine)
+const PROBE_TICKS: u64 = 300;
+/// the server's read timeout is 10 s; a never-terminated request is given 4.5x that of server time, counted from
+/// the moment the connection group was opened, before "open" is recorded
+const FINISH_TICKS: u64 = 450;
+/// wall-clock bound for kernel-only operations (connect / write on loopback) and for a whole program
 const PROBE_DEADLINE: Duration = Duration::from_secs(30);
-/// the server's read timeout is 10 s; a never-terminated request is given 4.5x that, counted from the moment
-/// the connection group was opened, before "open" is recorded (at least 2 s from the start of `finish`)
-const FINISH_DEADLINE: Duration = Duration::from_secs(45);
-const PROGRAM_DEADLINE: Duration = Duration::from_secs(400);
+const PROGRAM_DEADLINE: Duration = Duration::from_secs(1200);
+/// a step during which the server clock lost more than this against the wall clock was starved
+const STARVED_MS: u64 = 3000;
 const EKEY: &str = "aaaabbbbccccddddeeeeffffaaaaffff";
 
 // --------------------------------------------------------------------------- panics are data
@@ -90,7 +98,15 @@ struct Srv {
     http: u16,
     tcp_task: tokio::task::JoinHandle<()>,
     http_task: tokio::task::JoinHandle<()>,
+    /// 100 ms ticks of the server runtime since start
+    ticks: Arc<std::sync::atomic::AtomicU64>,
     _dir: tempfile::TempDir,
+}
+
+impl Srv {
+    fn now(&self) -> u64 {
+        self.ticks.load(std::sync::atomic::Ordering::Relaxed)
+    }
 }
 
 fn scratch() -> std::path::PathBuf {
@@ -202,7 +218,18 @@ async fn start_server(idx: usize, prog: &Value) -> Started {
             let a = TcpStream::connect(("127.0.0.1", tcp)).await.is_ok();
             let b = TcpStream::connect(("127.0.0.1", http)).await.is_ok();
             if a && b {
-                return Started::Up(Srv { rt: Some(rt), tcp, http, tcp_task, http_task, _dir: dir });
+                let ticks = Arc::new(std::sync::atomic::AtomicU64::new(0));
+                let t2 = ticks.clone();
+                rt.spawn(async move {
+                    let mut iv = tokio::time::interval(TICK);
+                    iv.set_missed_tick_behavior(tokio::time::MissedTickBehavior::Delay);
+                    iv.tick().await;
+                    loop {
+                        iv.tick().await;
+                        t2.fetch_add(1, std::sync::atomic::Ordering::Relaxed);
+                    }
+                });
+                return Started::Up(Srv { rt: Some(rt), tcp, http, tcp_task, http_task, ticks, _dir: dir });
             }
         }
         rt.shutdown_background();
@@ -261,11 +288,41 @@ async fn own_client_query(srv: &Srv, tr: &str, product: &str, ep: &str) -> Value
             },
         }
     };
-    match tokio::time::timeout(PROBE_DEADLINE, AssertUnwindSafe(fut).catch_unwind()).await {
-        Err(_) => json!({"out": "timeout"}),
-        Ok(Err(_)) => json!({"out": "panic", "msg": LAST_PANIC.with(|l| l.borrow().clone())}),
-        Ok(Ok(Err(e))) => json!({"out": "err", "err": clip(&e.to_string())}),
-        Ok(Ok(Ok(doc))) => json!({"out": "rows", "rows": doc_rows(&doc)}),
+    let guarded = AssertUnwindSafe(fut).catch_unwind();
+    tokio::pin!(guarded);
+    let start = srv.now();
+    let r = loop {
+        tokio::select! {
+            r = &mut guarded => break Some(r),
+            () = tokio::time::sleep(Duration::from_millis(200)) => {
+                if srv.now().saturating_sub(start) >= PROBE_TICKS {
+                    break None;
+                }
+            }
+        }
+    };
+    match r {
+        None => json!({"out": "timeout"}),
+        Some(Err(_)) => json!({"out": "panic", "msg": LAST_PANIC.with(|l| l.borrow().clone())}),
+        Some(Ok(Err(e))) => json!({"out": "err", "err": clip(&e.to_string())}),
+        Some(Ok(Ok(doc))) => json!({"out": "rows", "rows": doc_rows(&doc)}),
+    }
+}
+
+/// One valid request; an attempt that failed while the server was not running (process paused, thread starved:
+/// the clients under test have wall-clock time-outs of their own) says nothing and is repeated.
+async fn probe(srv: &Srv, tr: &str, product: &str, ep: &str) -> (Value, u64, u64) {
+    let mut retries = 0u64;
+    loop {
+        let (w0, t0) = (Instant::now(), srv.now());
+        let r = own_client_query(srv, tr, product, ep).await;
+        let lag = (w0.elapsed().as_millis() as u64).saturating_sub((srv.now() - t0) * TICK.as_millis() as u64);
+        let failed = matches!(r["out"].as_str(), Some("err") | Some("timeout"));
+        if failed && lag > STARVED_MS && retries < 5 {
+            retries += 1;
+            continue;
+        }
+        return (r, retries, lag);
     }
 }
 
@@ -315,17 +372,23 @@ fn request_bytes(tr: &str, cls: &str, big: usize) -> (Vec<u8>, bool) {
 }
 
 /// What came back on a raw socket: nothing + EOF, some reply, or still open at the deadline.
-async fn finish_one(mut s: TcpStream, tr: String, deadline: Instant) -> Value {
+async fn finish_one(mut s: TcpStream, tr: String, ticks: Arc<std::sync::atomic::AtomicU64>, deadline_tick: u64) -> Value {
     let mut buf = Vec::new();
     let mut tmp = [0u8; 8192];
     let mut eof = false;
+    let mut last_round = false;
     loop {
-        let left = deadline.saturating_duration_since(Instant::now());
-        if left.is_zero() {
-            break;
-        }
-        match tokio::time::timeout(left, s.read(&mut tmp)).await {
-            Err(_) => break,
+        // short waits; whether to give up is decided on the server's clock.  `timeout` polls the read first, so
+        // data or a close that is already there is never missed, however late this task runs.
+        match tokio::time::timeout(Duration::from_millis(250), s.read(&mut tmp)).await {
+            Err(_) => {
+                if ticks.load(std::sync::atomic::Ordering::Relaxed) >= deadline_tick {
+                    if last_round {
+                        break;
+                    }
+                    last_round = true;
+                }
+            }
             Ok(Ok(0)) => {
                 eof = true;
                 break;
@@ -376,7 +439,8 @@ async fn finish_one(mut s: TcpStream, tr: String, deadline: Instant) -> Value {
 struct RawConn {
     tr: String,
     socks: Vec<TcpStream>,
-    opened: Instant,
+    /// server tick at which the group was opened
+    opened: u64,
     /// fewer sockets than asked for could be opened: the process ran out of descriptors (family "flood")
     exhausted: bool,
 }
@@ -430,7 +494,7 @@ async fn run_program(idx: usize, prog: Value, big: usize, evs: Arc<Mutex<Vec<Str
         let t0 = Instant::now();
         match step["op"].as_str().expect("op") {
             "query" => {
-                let r = own_client_query(
+                let (r, retries, lag) = probe(
                     &srv,
                     step["tr"].as_str().expect("tr"),
                     step["product"].as_str().expect("product"),
@@ -439,6 +503,9 @@ async fn run_program(idx: usize, prog: Value, big: usize, evs: Arc<Mutex<Vec<Str
                 .await;
                 ev["res"] = r;
                 ev["ms"] = json!(t0.elapsed().as_millis() as u64);
+                if retries > 0 || lag > STARVED_MS {
+                    ev["starved"] = json!({"retries": retries, "lag_ms": lag});
+                }
             }
             "open" => {
                 let tr = step["tr"].as_str().expect("tr").to_string();
@@ -453,7 +520,7 @@ async fn run_program(idx: usize, prog: Value, big: usize, evs: Arc<Mutex<Vec<Str
                 }
                 ev["res"] = json!({"connected": socks.len()});
                 let exhausted = (socks.len() as u64) < n;
-                conns.insert(step["c"].as_u64().expect("c"), RawConn { tr, socks, opened: t0, exhausted });
+                conns.insert(step["c"].as_u64().expect("c"), RawConn { tr, socks, opened: srv.now(), exhausted });
             }
             "send" => {
                 let c = conns.get_mut(&step["c"].as_u64().expect("c")).expect("send on a connection that was not opened");
@@ -478,9 +545,9 @@ async fn run_program(idx: usize, prog: Value, big: usize, evs: Arc<Mutex<Vec<Str
             }
             "finish" => {
                 let c = conns.remove(&step["c"].as_u64().expect("c")).expect("finish on a connection that was not opened");
-                let deadline = (c.opened + FINISH_DEADLINE).max(Instant::now() + Duration::from_secs(2));
+                let deadline = (c.opened + FINISH_TICKS).max(srv.now() + 20);
                 let mut outs: Vec<Value> = vec![];
-                let results = futures::future::join_all(c.socks.into_iter().map(|s| finish_one(s, c.tr.clone(), deadline))).await;
+                let results = futures::future::join_all(c.socks.into_iter().map(|s| finish_one(s, c.tr.clone(), srv.ticks.clone(), deadline))).await;
                 for r in results {
                     if !outs.contains(&r) {
                         outs.push(r);
